@@ -178,17 +178,41 @@ func (tt *TermTable) mk(op Op, sort Sort, p1, p2 int, name string, args ...*Term
 
 // ---- constants ----
 
+var (
+	constTrue  = &Term{op: OConst, sort: boolSort, cval: 1}
+	constFalse = &Term{op: OConst, sort: boolSort, cval: 0}
+	smallConsts [65][]*Term
+)
+
+func init() {
+	for _, w := range []int{1, 8, 16, 32, 64} {
+		n := 257
+		if w == 1 {
+			n = 2
+		}
+		smallConsts[w] = make([]*Term, n)
+		for v := 0; v < n; v++ {
+			smallConsts[w][v] = &Term{op: OConst, sort: bv(w), cval: uint64(v)}
+		}
+	}
+}
+
+// constants are immutable and shared between paths and workers
 func (tt *TermTable) BV(w int, v uint64) *Term {
 	if w > 64 {
 		panic("BV const wider than 64 via BV()")
 	}
-	return &Term{op: OConst, sort: bv(w), cval: v & mask(w)}
+	v &= mask(w)
+	if sc := smallConsts[w]; sc != nil && v < uint64(len(sc)) {
+		return sc[v]
+	}
+	return &Term{op: OConst, sort: bv(w), cval: v}
 }
 func (tt *TermTable) Bool(b bool) *Term {
 	if b {
-		return &Term{op: OConst, sort: boolSort, cval: 1}
+		return constTrue
 	}
-	return &Term{op: OConst, sort: boolSort, cval: 0}
+	return constFalse
 }
 func (tt *TermTable) FP(f float64) *Term {
 	return &Term{op: OConst, sort: fpSort, cval: math.Float64bits(f)}
